@@ -17,9 +17,9 @@ import (
 func init() {
 	register(&CheckSpec{
 		ID: "C19", Fn: c19, Race: true,
-		Rule:        "one evaluation = one book built by the public Initialize (cache off) from a generated game collection (1-300 games of 1-30 plies played by refchess, with transposed move orders, duplicate games, an illegal but well-formed move or an unreadable token mid-line) rendered as Simple, SAN and PGN (tags, {} and ; comments, % lines, NAGs, nested variations, numbering styles, results, wrapped lines); compared entry by entry with the expectation computed by single-threaded replay of the reference moves: key set, visit counters, every offered move legal in its position (refchess), leading to its linked successor key, offered once; the three formats agree; the same file rebuilt under GOMAXPROCS 1/2/4/16 gives identical (key -> counter) maps; every eighth collection is a contention collection (60-260 adjacent pairs of transposing games, 2-4 copies each, rebuilt 12 times under GOMAXPROCS up to 64) aimed at the first discovery of a position by several line goroutines at once; half of the shards under the race detector; distinct = distinct (collection, format, GOMAXPROCS) builds",
+		Rule:        "one evaluation = one book built by the public Initialize (cache off) from a generated game collection (1-300 games of 1-30 plies played by refchess, with transposed move orders, duplicate games, an illegal but well-formed move or an unreadable token mid-line) rendered as Simple, SAN and PGN (tags, {} and ; comments, % lines, NAGs, nested variations, numbering styles, results, wrapped lines); compared entry by entry with the expectation computed by single-threaded replay of the reference moves: key set, visit counters, every offered move legal in its position (refchess), leading to its linked successor key, offered once; the three formats agree; the same file rebuilt under GOMAXPROCS 1/2/4/16 gives identical (key -> counter) maps; every eighth collection is a contention collection (60-260 adjacent pairs of transposing games, 2-4 copies each, rebuilt 12 times under GOMAXPROCS up to 64) aimed at the first discovery of a position by several line goroutines at once; every eighth is a crowded collection (SAN and PGN only: games with early promotions and under-promotions, moves whose SAN needs file and rank of the origin preferred); half of the shards under the race detector; distinct = distinct (collection, format, GOMAXPROCS) builds",
 		Assumptions: []string{"positions are identified by the engine's zobrist key (judged by C04)", "promotions are excluded (the Simple format cannot express them)", "successor lists depend on insertion order and are judged per move, not as sequences"},
-		Required:    []string{"builds", "collections", "games", "transposition_games", "duplicate_games", "illegal_tail_games", "unreadable_tail_games", "entries_checked", "moves_checked", "format_simple", "format_san", "format_pgn", "gomaxprocs_variants", "insertion_orders_seen", "contention_collections"},
+		Required:    []string{"builds", "collections", "games", "transposition_games", "duplicate_games", "illegal_tail_games", "unreadable_tail_games", "entries_checked", "moves_checked", "format_simple", "format_san", "format_pgn", "gomaxprocs_variants", "insertion_orders_seen", "contention_collections", "crowded_collections", "san_moves_with_file_and_rank", "san_captures_with_file_and_rank"},
 		MinEvals:    100,
 		TimeoutQ:    15 * 60e9,
 	})
@@ -80,6 +80,15 @@ func c19(c *Ctx) {
 			bs = genContentionSet(r, 60+r.Intn(c.Size(100, 200)), 2+r.Intn(3))
 			rep.Inc("contention_collections")
 		}
+		crowded := ci%8 == 5
+		if crowded {
+			// promotions and three pieces of one kind: SAN with file, rank or both as origin
+			var nb, nbc int
+			bs, nb, nbc = genCrowdedSet(r, 6+r.Intn(30))
+			rep.Inc("crowded_collections")
+			rep.Count("san_moves_with_file_and_rank", int64(nb))
+			rep.Count("san_captures_with_file_and_rank", int64(nbc))
+		}
 		want, boards := expectedBook(bs)
 		rep.Inc("collections")
 		rep.Count("games", int64(len(bs.Games)))
@@ -129,6 +138,9 @@ func c19(c *Ctx) {
 			{"book.pgn", openingbook.Pgn, bs.renderPGN(r), "pgn"},
 		}
 		rep.Begin(fmt.Sprintf("collection %d (%d games)", ci, len(bs.Games)))
+		if crowded {
+			files = files[1:] // the Simple format cannot express promotions
+		}
 		for _, f := range files {
 			if err := os.WriteFile(filepath.Join(dir, f.name), []byte(f.text), 0o644); err != nil {
 				rep.Inconclusive("cannot write book file: " + err.Error())
